@@ -12,6 +12,7 @@ from ..runner import empty_result
 from ._pairs import V
 
 PID = "C10"
+REPLAY_MATCH = "fails"   # a non-determinism violation need not show the same digest twice; the fresh replay must fail the same clause
 LEVEL = "model_checking"
 WITNESSES = ["alone_run", "hash_seed_variant", "sequence_pair", "sequence_triple", "construct_then_run", "same_config_twice", "pool_batch", "interleaved_pair"]
 NONTRIVIAL = ["hash_seed_variant", "sequence_pair", "sequence_triple", "construct_then_run", "same_config_twice", "pool_batch", "interleaved_pair"]
